@@ -30,6 +30,7 @@ pub struct Rec {
     marker_file: Option<File>,
     cov_seen: HashSet<u64>,
     cov_new: Vec<u64>,
+    notes_seen: HashSet<u64>,
     counters: BTreeMap<String, u64>,
     maxima: BTreeMap<String, u64>,
     viol_seen: BTreeMap<String, u64>,
@@ -39,6 +40,8 @@ pub struct Rec {
     marker_calls: u64,
     pub sample_cap: usize,
     pub viol_detail_cap: u64,
+    /// appended to every violation detail (fuzz mode: where the decision tape is stored)
+    pub detail_suffix: String,
 }
 
 impl Rec {
@@ -50,6 +53,7 @@ impl Rec {
             marker_file: None,
             cov_seen: HashSet::new(),
             cov_new: vec![],
+            notes_seen: HashSet::new(),
             counters: BTreeMap::new(),
             maxima: BTreeMap::new(),
             viol_seen: BTreeMap::new(),
@@ -59,6 +63,7 @@ impl Rec {
             marker_calls: 0,
             sample_cap: 3,
             viol_detail_cap: 3,
+            detail_suffix: String::new(),
         }
     }
 
@@ -90,6 +95,9 @@ impl Rec {
         }
     }
     /// A violation of `prop` with signature `sig` (stable: no seeds, no operand values).
+    pub fn distinct_violations(&self) -> usize {
+        self.viol_seen.len()
+    }
     pub fn violations_recorded(&self) -> u64 {
         self.viol_total
     }
@@ -104,7 +112,7 @@ impl Rec {
                 "{{\"k\":\"viol\",\"prop\":{},\"sig\":{},\"detail\":{},\"replay\":{}}}",
                 jesc(prop),
                 jesc(sig),
-                jesc(&detail.chars().take(4000).collect::<String>()),
+                jesc(&format!("{}{}", detail.chars().take(4000).collect::<String>(), self.detail_suffix)),
                 jesc(replay)
             );
             let _ = self.w.flush();
@@ -128,6 +136,10 @@ impl Rec {
         }
     }
     pub fn note(&mut self, key: &str, text: &str) {
+        // identical notes are written once (fuzz mode repeats the same run() many times)
+        if !self.notes_seen.insert(hash_str(&format!("{}\u{1}{}", key, text))) {
+            return;
+        }
         let _ = writeln!(self.w, "{{\"k\":\"note\",\"key\":{},\"v\":{}}}", jesc(key), jesc(text));
     }
     /// Tell the supervisor which case is about to run (survives an abort of this process).
